@@ -73,10 +73,13 @@ CHECKS = {
              "message queue) against NunHttp!RefReply and generates one body per (session state, queue "
              "residue, last command, next command); each body is POSTed to the node's real HTTP server and "
              "TLC validates the reply entry by entry against the per-command outcomes of a twin node, plus "
-             "same final state and session release.",
+             "same final state and session release. The same command lists also go, as one text frame each, "
+             "to the node's real WebSocket server: the frames that come back must be, command by command, "
+             "its pushed lines followed by its own ok / error (NunHttp!WsReply).",
         note="per-command outcomes come from a twin node (same binary) executing the commands one by one; "
-             "WebSocket frames not exercised",
-        technique="TLA+ reference (NunHttp) + TLC trace validation of real HTTP requests; TLC-generated bodies",
+             "WebSocket frames carry no blank statements (the WebSocket server does not skip them)",
+        technique="TLA+ reference (NunHttp) + TLC trace validation of real HTTP requests and WebSocket frames; "
+                  "TLC-generated bodies",
         design="DESIGN.md §5 C20"),
     "C02": dict(
         level="model_checking",
